@@ -193,11 +193,14 @@ class SimThreading:
                 outer._s.yield_point(f"{ev.name}.set")
                 ev._flag = True
                 outer._s.note("SET", outer._s.cur.name, ev.name)
+                # the code that follows the operation may be pre-empted before it runs, too
+                outer._s.yield_point(f"{ev.name}.set:after")
 
             def clear(ev):
                 outer._s.yield_point(f"{ev.name}.clear")
                 ev._flag = False
                 outer._s.note("CLEAR", outer._s.cur.name, ev.name)
+                outer._s.yield_point(f"{ev.name}.clear:after")
 
             def wait(ev, timeout=None):
                 s = outer._s
@@ -227,6 +230,7 @@ class SimThreading:
                     s.block(f"{lk.name}.acquire", lambda: lk._owner is None, None)
                 lk._owner = s.cur.name
                 s.note("ACQUIRE", s.cur.name, lk.name)
+                s.yield_point(f"{lk.name}.acquire:after")
                 return True
 
             def release(lk):
